@@ -228,6 +228,16 @@ class _Run:
         if node.kind == "handler":
             if isinstance(a, ast.ExceptHandler) and a.name:
                 env.vars[a.name] = T  # exceptions are not input
+            if isinstance(a, ast.ExceptHandler) and a.type is not None and norm(a.type) == "OverflowError":
+                # arithmetic only overflows when an *integer* operand has to be converted to
+                # float (`int % float`, `int / x`): inside the handler the operand is an int
+                tr = self.parents.get(a)
+                if isinstance(tr, ast.Try):
+                    for x in (y for s_ in tr.body for y in ast.walk(s_)):
+                        if isinstance(x, ast.BinOp) and isinstance(x.op, (ast.Mod, ast.Div, ast.FloorDiv, ast.Pow)) and isinstance(x.left, ast.Name):
+                            cur = env.vars.get(x.left.id)
+                            if cur is not None and cur.kind == "I":
+                                env.vars[x.left.id] = Val("I", cur.types & {"int", "bool"}, cur.own, cur.hk)
             return env
         if isinstance(a, (ast.FunctionDef, ast.AsyncFunctionDef, ast.ClassDef)):
             return env
@@ -469,6 +479,8 @@ class _Run:
         return False
 
     def binop_hazard(self, node, op, l: Val, r: Val):
+        if (l.kind == "I" and l.types <= {"rational"}) or (r.kind == "I" and r.types <= {"rational"}):
+            return  # exact rational arithmetic (fractions.Fraction)
         for v in (l, r):
             if v.kind != "I":
                 continue
@@ -480,8 +492,10 @@ class _Run:
                 continue
             if not (v.types <= NUMERIC):
                 self.hz(node, {"TypeError"}, f"`{short(node, 60)}`: arithmetic on a value that may not be a number ({sorted(v.types)})")
-            if isinstance(op, (ast.Div, ast.FloorDiv, ast.Pow)) and (v.types & {"int", "bool"}):
-                self.hz(node, {"OverflowError"}, f"`{short(node, 60)}`: true division / power of an arbitrarily large integer overflows float")
+            if isinstance(op, (ast.Div, ast.FloorDiv, ast.Pow, ast.Mod)) and (v.types & {"int"}):
+                other = r if v is l else l
+                if isinstance(op, (ast.Div, ast.Pow)) or other.kind == "T" or (other.types & {"float"}):
+                    self.hz(node, {"OverflowError"}, f"`{short(node, 60)}`: an arbitrarily large integer combined with a float (division, power, or % by a float) overflows")
             if isinstance(op, (ast.Div,)) and (v.types & {"float"}) and False:
                 pass
 
@@ -743,6 +757,17 @@ class _Run:
                 return T
             if b in ISINSTANCE_TAGS or b in ("NotImplementedError", "ValueError", "TypeError", "KeyError"):
                 return T
+            if b == "Fraction":
+                # exact rational arithmetic: no overflow; inf / nan cannot be converted
+                if a0.kind == "I":
+                    excs = set()
+                    if not (a0.types <= NUMERIC):
+                        excs |= {"TypeError", "ValueError"}
+                    if a0.types & {"float"}:
+                        excs |= {"OverflowError", "ValueError"}
+                    if excs:
+                        self.hz(e, excs, f"`{short(e, 50)}`: Fraction() of a value derived from the input ({sorted(a0.types)})")
+                return Val("I", {"rational"}, True, True)
         # ---- method calls
         if isinstance(f, ast.Attribute):
             recv = self.ev(f.value, env)
